@@ -127,6 +127,9 @@ def _fix_variable_names(
 
         replacements.append((start, end, substitute))
 
+    if any(core.has_ignore_comment(source, core.Range(start, end)) for start, end, _ in replacements):
+        return source  # All or nothing: a name is not renamed in some places only
+
     for start, end, substitute in sorted(set(replacements), reverse=True):
         logger.debug("Replacing {old} with {new}", old=source[start:end], new=substitute)
         source = source[:start] + substitute + source[end:]
@@ -1115,7 +1118,19 @@ def remove_duplicate_functions(source: str, preserve: Collection[str]) -> str:
             node_renamings[node].add(substitute)
 
     if node_renamings:
-        source = _fix_variable_names(source, node_renamings, preserve)
+        new_source = _fix_variable_names(source, node_renamings, preserve)
+        if new_source == source:
+            return source  # The uses were not redirected, so the duplicates must stay
+
+        # The names have another length now, so what follows them is found in other places
+        source = new_source
+        root = core.parse(source)
+        duplicates = {(node.name, node.lineno) for node in delete}
+        delete = {
+            node
+            for node in core.walk(root, (ast.FunctionDef, ast.AsyncFunctionDef))
+            if (node.name, node.lineno) in duplicates
+        }
     if delete:
         source = processing.remove_nodes(source, delete, root)
 
